@@ -21,13 +21,13 @@ chk("C07", "exploration", "E4",
 chk("C12", "exploration", "E4",
     "bounded-exhaustive enumeration of all feed-forward DAGs on a small node set, every solver entry point vs a topological-order reference",
     "Every feed-forward edge set over {bias, input(s), <=2..3 hidden, output(s)} in which every neuron is reachable from a sensor is built as a real Network; under weight rotations, every registered activation type (uniform and mixed) and every input vector over a 4-value alphabet, Network.ForwardSteps(D), ForwardSteps(D+2), RecursiveSteps and the fast solver's ForwardSteps(D), ForwardSteps(D+2), RecursiveSteps and Relax (the fast solver derived from the network, restored from its written model, and constructed directly with bias links as connections, flushed before use; and one derived solver used through another entry point on another input and flushed) are compared (1e-11 relative) with a Kahn-order evaluation that uses the library's registered activation functions. The space named in the evidence rule is enumerated completely.",
-    "Node sets bounded (quick 5 nodes, thorough up to 7); besides one handle per network, a second fast solver derived from the same network is loaded and run between load and evaluation of the first; weights/inputs from non-saturating menus; the activation functions themselves are trusted here (C18 checks them).",
+    "Node sets bounded (quick 5 nodes, thorough up to 7); RecursiveSteps of the standard solver is also evaluated after depth queries (caps 1, 2, none, 1) on the same network; besides one handle per network, a second fast solver derived from the same network is loaded and run between load and evaluation of the first; weights/inputs from non-saturating menus; the activation functions themselves are trusted here (C18 checks them).",
     "DESIGN.md section 3 C12")
 
 chk("C14", "exploration", "E4",
     "bounded-exhaustive enumeration of all digraphs on k neurons + 1 sensor, all caps and all pairs of consecutive depth queries, vs DP longest path",
     "ALL digraphs (every neuron->neuron edge including self-loops, every sensor->neuron edge) over 2 hidden + 1 output (quick) and 3 hidden + 1 output / 2 hidden + 2 outputs (thorough) are built as real networks; for each, every cap 0..n+1 and every ordered pair of consecutive queries is executed: DAG depth == DP longest path ending in an output, cyclic graphs terminate within [0, #nodes], cap rule, second query == same query on a fresh network, no visited mark left; MaxActivationDepth(), a negative cap and the same graph built with an empty control-node list agree. Hangs and crashes of a worker are turned into verdicts.",
-    "Sensors are interchangeable for depth so one sensor is used; modular networks excluded as in the statement; hang guard is generous wall-clock, only used to convert non-termination into a verdict.",
+    "Sensors are interchangeable for depth so one sensor is used; modular networks excluded as in the statement; beyond the small node sets a deep-chain stage takes every chain length up to 120 (thorough 600) with a direct link and dead-end side neurons (no skip links: the library enumerates paths), caps around the depth and second queries; hang guard is generous wall-clock, only used to convert non-termination into a verdict.",
     "DESIGN.md section 3 C14")
 
 chk("C18", "exploration", "E4",
@@ -39,14 +39,14 @@ chk("C18", "exploration", "E4",
 chk("C19", "exploration", "E4",
     "bounded-exhaustive enumeration of all series up to length L over a 7-value alphabet and all small experiment shapes vs textbook definitions",
     "All sequences of length 0..5 (quick) / 0..7 (thorough) over {-2.5,0,1,1,3,1e10,1e-10} - every order and tie pattern of every multiset - are passed to each Floats accessor and compared with textbook definitions computed on a sorted copy (empirical quantile at ceil(p*n)); a panic is a violation; NaN/0 on the empty series. All experiments with 0..2(3) trials of 0..3 generations over a 6-record menu: every aggregate accessor (experiment and trial level incl. Trial.Average) is recomputed directly from the recorded generations; usage sequences: in-place sort, caller writes to returned series, another experiment read into the queried object.",
-    "Alphabet (11 symbols incl. three distinct negative values) and length bounded; gonum is trusted for nothing (reference is independent).",
+    "Alphabet (11 symbols incl. three distinct negative values) and length bounded in the full enumeration; a long-series stage takes every length up to 96 (thorough 400) in every rotation of the ascending and of the descending order of one series; solved generations may record 0 winner nodes / genes; gonum is trusted for nothing (reference is independent).",
     "DESIGN.md section 3 C19")
 
 ENGINES.append({"name": "E1 choice-tree explorer (deviation-bounded, stateless)", "path": "cmd/mc/explore.go, pop.go, popcheck.go",
   "serves_properties": ["C01", "C02", "C03", "C09", "C10", "C17", "C20"],
   "kind_free_text": "every random draw of the real code is a choice point with a small menu (vrand shim through the build overlay); all executions within d deviations of several base policies are run to completion and checked"})
 
-_E1NOTE = ("Every options object is a changed by-value copy of a used decoy options value; a run keeps one executor value for all its epochs (C02 / C17: one per process). every third scenario runs at the library's log level debug (sinks silenced). Bounds: populations <= 12 (hand-built up to 30; C02 additionally base executions of a twenty-species population of 40 under the parallel executor; C09's shape stage all shapes of 5 and 8 organisms), 6-8 epochs, <= 1 deviation per run in quick and <= 2 on a scenario subset in thorough; random magnitudes from a 3-point menu; "
+_E1NOTE = ("Every options object is a changed by-value copy of a used decoy options value; a run keeps one executor value for all its epochs (C02 / C17: one per process). every third scenario runs at the library's log level debug (sinks silenced); C09's shape stage includes a tiny-scale landscape (values around 1e-10). Bounds: populations <= 12 (hand-built up to 30; C02 additionally base executions of a twenty-species population of 40 under the parallel executor; C09's shape stage all shapes of 5 and 8 organisms), 6-8 epochs, <= 1 deviation per run in quick and <= 2 on a scenario subset in thorough; random magnitudes from a 3-point menu; "
            "no model: every explored trace is an implementation trace. Trusts go build -overlay, the import rewrite math/rand -> vrand and the accessor file.")
 
 chk("C02", "model_checking", "E1",
@@ -140,5 +140,5 @@ chk("C16", "model_checking", "E3",
 chk("C17", "model_checking", "E1",
     "stateless deviation-bounded exploration in which every execution is run twice in-process and the base executions again in a second process; plus seeded runs on the real math/rand repeated in-process and in a second process",
     "Explorer mode: for every scenario (start genomes incl. one with five disconnected sensors and random populations x configuration rows x landscapes x policies, four node activators) every execution within 1 deviation of the base policy is run twice in the same process from the same start genome objects (second pass after garbage, forced GC and unrelated evolution, at log level debug with silenced sinks); the draw trace (kind and bound of each draw) and the bit-exact population fingerprints after construction and every epoch must agree; replaying recorded answers must meet the same draws; base executions are compared with a fresh process. Real math/rand: 16 (128 thorough) seed x start x configuration runs of 10 epochs repeated in-process under different GOGC / GOMAXPROCS and in a second process.",
-    "Besides the random draws the harness owns three environment choices and gives the executions that must agree different answers: the iteration order of every map the instrumenter can classify syntactically (range statements rewritten to iterate over harness-ordered keys: ascending / descending / rotated), the clock (package time replaced by a shim: 2001 + 1 ms per reading / 2033 + 7 s / 1999 + 1 ns) and the processor count (all / 1 / 3). One five-species population runs with all compatibility coefficients 0 (every placement an exact tie), one start genome is modular with module nodes attached through the control gene only. Memory addresses and maps the instrumenter cannot classify stay with the runtime; dependence on them is caught only by the repetition. Bounds as in C02.",
+    "All runs of a process start from the same genome objects and are handed the same options value. A spawn stage calls NewPopulation for every size 1..64 and around the powers of two / round numbers up to 4096 (5000) three times in the three environments. Besides the random draws the harness owns three environment choices and gives the executions that must agree different answers: the iteration order of every map the instrumenter can classify syntactically (range statements rewritten to iterate over harness-ordered keys: ascending / descending / rotated), the clock (package time replaced by a shim: 2001 + 1 ms per reading / 2033 + 7 s / 1999 + 1 ns) and the processor count (all / 1 / 3). One five-species population runs with all compatibility coefficients 0 (every placement an exact tie), one start genome is modular with module nodes attached through the control gene only. Memory addresses and maps the instrumenter cannot classify stay with the runtime; dependence on them is caught only by the repetition. Bounds as in C02.",
     "DESIGN.md section 3 C17")
